@@ -198,8 +198,8 @@ theorem admitSegs_prefix (conv una cwnd now : U32) (q buf : List Seg) (nxt : U32
     unfold admitSegs
     split
     · exact ⟨[], by simp⟩
-    · obtain ⟨new, e⟩ := ih (buf ++ [{ s with conv := conv, cmd := BitVec.ofNat 8 IKCP_CMD_PUSH, sn := nxt, resendts := now }]) (nxt + 1) (c + 1)
-      exact ⟨{ s with conv := conv, cmd := BitVec.ofNat 8 IKCP_CMD_PUSH, sn := nxt, resendts := now } :: new, by rw [e]; simp⟩
+    · obtain ⟨new, e⟩ := ih (buf ++ [{ s with conv := conv, cmd := BitVec.ofNat 8 IKCP_CMD_PUSH, sn := nxt, ts := now, resendts := now }]) (nxt + 1) (c + 1)
+      exact ⟨{ s with conv := conv, cmd := BitVec.ofNat 8 IKCP_CMD_PUSH, sn := nxt, ts := now, resendts := now } :: new, by rw [e]; simp⟩
 
 theorem resentOf_ne_zero (k : Kcp) : resentOf k ≠ 0 := by
   unfold resentOf
